@@ -9,6 +9,7 @@ for d in sorted(glob.glob(os.path.join(ROOT, "seeded", "C*-*"))):
     title = next((l.strip("# ").strip() for l in notes.splitlines() if l.strip()), "")[:110]
     det = ", ".join(c["check"] for c in m["checks_run"] if c["exit"] == 1) or "—"
     fv = next((c["first_violation"] for c in m["checks_run"] if c["exit"] == 1), "")[:120].replace("|", "/")
+    fv = "".join(ch if (32 <= ord(ch) < 0xFFF0 and not 0xD800 <= ord(ch) < 0xE000) else f"\\u{{{ord(ch):x}}}" for ch in fv)
     rows.append(f"| {m['seed']} | {title.replace('|','/')} | {det} | `{fv}` |")
 table = "| seed | change (title of the author's notes) | reported by (quick) | first violation printed |\n|---|---|---|---|\n" + "\n".join(rows)
 p = os.path.join(ROOT, "DESIGN.md")
